@@ -17,5 +17,5 @@ CHECK = {
  'technique': 'property-based adversarial exploration (rapid) of fork trees with a global safety invariant over the real BFT module',
  'assumptions': ['fault bound f < W/3 and f <= precommitThreshold - floor(W/3) - 1 (Lisk-BFT safety theorem)', 'honest validators modelled per LIP-0014/LIP-0058'],
  'quick': [{'pkg': 'c01', 'checks': 1500, 'timeout': 900}],
- 'thorough': [{'pkg': 'c01', 'checks': 3000, 'shards': 16, 'timeout': 2400}],
+ 'thorough': [{'pkg': 'c01', 'checks': 40000, 'shards': 16, 'timeout': 2400}],
 }
